@@ -282,6 +282,8 @@ def shift_fields(fields, delta):
     """calendar fields of the instant `fields` + delta seconds (|delta| < 2 days, concrete):
     time-of-day arithmetic with a day carry, month and year roll-over by case split"""
     y, m, d, hh, mi, ss = fields
+    if delta == 0:
+        return (y, m, d, hh, mi, ss)
     t = hh * 3600 + mi * 60 + ss + delta
     carry = 0
     while bool(t < 0):
